@@ -311,7 +311,7 @@ def hangup(ctx, rule):
         if hang:
             n += 1
             covered |= {f for f in (srv.EV_ERR, srv.EV_HUP, srv.EV_RDHUP) if fl.get(f)}
-            clr = calls(lf, CC + "clear_write_buffer")
+            clr = calls(lf, CC + "clear_write_buffer") or calls(lf, conn.P + "clear_write_buffer")
             closed = [e for e in lf.events if e[0] == "assign" and e[5] is not None and srv.is_state_place(e[5]) and srv.state_const(ctx.facts, e[4]) == "Closed"]
             ctx.ob(rule, "hangup|clear+closed|flags=%s" % sorted(k for k, v in fl.items() if v), len(clr) == 1 and len(closed) == 1 and not io, "ERR/HUP/RDHUP: write buffer cleared, state := Closed, no read/write (clear=%d closed=%d io=%d)" % (len(clr), len(closed), len(io)), fn.loc(lf.bb))
         elif io:
@@ -329,9 +329,10 @@ def clear_write_buffer_rule(ctx, rule):
         q = [e for e in lf.events if e[0] == "call" and last_seg(e[3]) == "clear" and conn.self_field(e[4][2][0], "response_queue")]
         b = [e for e in lf.events if (e[0] == "call" and last_seg(e[3]) == "take" and conn.self_field(e[4][2][0], "response_buffer")) or (e[0] == "assign" and e[3] == "(*_1).response_buffer" and e[4][0] == "agg" and e[4][2] == "None")]
         ctx.ob(rule, "clear_write_buffer|both", len(q) >= 1 and len(b) >= 1, "HttpConnection::clear_write_buffer empties the queue and sets the unsent buffer to None", fcw.loc(0))
-    fcc, lcc = leaves(ctx, CC + "clear_write_buffer")
-    for lf in lcc:
-        ctx.ob(rule, "ClientConnection::clear_write_buffer", len(calls(lf, conn.P + "clear_write_buffer")) == 1, "ClientConnection::clear_write_buffer forwards to the connection", fcc.loc(0))
+    if ctx.facts.has_fn(CC + "clear_write_buffer"):     # the forwarding method may have been inlined into its caller
+        fcc, lcc = leaves(ctx, CC + "clear_write_buffer")
+        for lf in lcc:
+            ctx.ob(rule, "ClientConnection::clear_write_buffer", len(calls(lf, conn.P + "clear_write_buffer")) == 1, "ClientConnection::clear_write_buffer forwards to the connection", fcc.loc(0))
 
 
 def closed_enqueue(ctx, rule):
@@ -397,11 +398,10 @@ def nonblocking(ctx, rule):
             cf = facts.fns.get(cname)
             if cf is None:
                 continue
-            names = {t["callee"].get("path") for bb, t in cf.calls()}
-            sub = {t["callee"].get("path") for cl in facts.closures_of(srv.HNC) if cl.d.get("parent") == srv.HNC for bb, t in cl.calls()}
-            if conn.P + "new" in names:
+            from .util import reaches_via_new
+            if reaches_via_new(facts, cf, conn.P + "new"):
                 builder = cname
-            if "std::os::unix::net::UnixStream::set_nonblocking" in names:
+            if reaches_via_new(facts, cf, "std::os::unix::net::UnixStream::set_nonblocking"):
                 setter = cname
         order_ok = builder is not None and setter is not None and closures.index(setter) < closures.index(builder)
         arg_true = False
